@@ -368,7 +368,7 @@ def obs_streams(orc, project=None):
         n = 4000 if q else 150000
         return [
             Stream("exhaustive", "obs", gens.obs_exhaustive(ml), obs_nontriv, True,
-                   "every sequence of <= %d calls over a 22-call alphabet (all six setters with equal / hash-equal / different values, subscribe(_reset), poll, next_now, reset, clone, drop of subscribers, clone / drop / downgrade / upgrade / into_shared of handles, counts), from a fresh handle and from a handle with one pending subscriber, on Observable, SharedObservable and through write guards" % ml,
+                   "every sequence of <= %d calls over a 25-call alphabet (all six setters with equal / hash-equal / different values, get, subscribe(_reset), poll, next_now, reset, clone, drop of subscribers, clone / drop / downgrade / upgrade / into_shared of handles, clone / drop of weak references, counts; each call is issued through one of its equivalent entry points chosen by its position: poll = Stream::poll_next | next() | next_ref(); next_now = next_now | next_ref_now; get = get | read | try_read | Deref; set = set | write guard | try_write guard; new | Default), from a fresh handle and from a handle with one pending subscriber, on Observable, SharedObservable and through write guards" % ml,
                    obs_hist, oracles=orc, project=project),
             Stream("random", "obs", gens.obs_random(rng, n), obs_nontriv, False,
                    "%d seeded random histories of 10..40 calls (up to ~8 subscribers, several clones and weak references), ending with all owners dropped and every subscriber polled" % n,
@@ -430,6 +430,12 @@ def ovec_streams(kind, orc, project=None):
             st.append(Stream("txn-exhaustive", "ovec", gens.ovec_txn_exhaustive(2 if q else 3), ovec_nontriv, True,
                              "every transaction body of <= %d operations over 16 (mutators, clear, rollback, entry ops, a subscriber dropped mid-body) x commit / drop / rollback+drop / rollback+commit x 0/1/2 subscribers, followed by a direct call" % (2 if q else 3),
                              ovec_hist, oracles=orc, project=project))
+        if kind == "c06":
+            r = 150 if q else 5000
+            st.append(Stream("writer-thread", "race", ["kind=%s rounds=%d" % (k, r) for k in ("vecstream", "vecstreamb") for _ in range(4)],
+                             lambda c, o: True, False,
+                             "2 x 4 x %d free-running rounds: the ObservableVector (capacity 1..4) is mutated back to back on another thread (200 operations incl. transactions) while the plain / batched stream is polled, so lag is detected in the middle of a drain (the Lagged arms inside handle_lag and the batched drain loop, which a single-threaded history cannot reach); every delivered diff must be applicable and the replica equals the contents once the writer is done" % r,
+                             lambda c, o: c.split()[0], oracles={"racefinal", "raceorder"}))
         st.append(Stream("random", "ovec", gens.ovec_random(rng, n, lagbias=(kind in ("c06", "c08"))), ovec_nontriv, False,
                          "%d seeded random histories of 3..60 operations: all mutators (5%% out of range), entry traversals, transactions with rollbacks, up to 4 subscribers of both flavours created and dropped at any time, polls and drains, capacities 1..16%s" % (n, ", low poll rates" if kind in ("c06", "c08") else ""),
                          ovec_hist, oracles=orc, project=project))
@@ -443,7 +449,7 @@ PROPS.update({
                 level_text="Coq theorems over all histories (any interleaving of mutators, entry traversals, transactions, subscriptions of both flavours, polls, drops): every published diff is strictly applicable and takes the contents before the call to the contents after it; a direct call publishes exactly one diff, the documented no-ops none; a subscriber that never lagged has, at every Pending, received exactly the concatenation of everything published since it subscribed whatever the polling pattern and flavour, and its replica is the contents. Tied to vector.rs/subscriber.rs by exhaustive short histories and random long ones; the harness checks independently (with a plain Vec as shadow) that the replica passes through every state in order and that the number of delivered diffs is the number specified.",
                 level_note="Trusted: Coq kernel, extraction, harness, imbl::Vector as list, tokio broadcast as a position log."),
     "C06": dict(streams=ovec_streams("c06", {"replica", "app", "lagreset", "resetcurrent", "batchcurrent"}), trusted=OVEC_TRUST,
-                assumptions=["single-threaded use of the vector (it is !Sync by construction: &mut self mutators)"],
+                assumptions=["the theorems interleave vector operations and polls at call granularity (the vector is !Sync: &mut self mutators); a vector moved to another thread that sends WHILE a poll drains the channel is exercised by the free-running writer-thread stream only"],
                 level_text="Coq theorems for every capacity, history and polling pattern: at every Pending the replica equals the contents; a Reset is delivered only to a receiver more than cap2 >= capacity messages behind, alone in its item, carrying the contents as of delivery; no delivered diff is ever inapplicable; every batched item catches up completely; the unreachable!()s, the expect() and the drain loops are safe. Proved through an inductive invariant (window clause, last-message clause, YieldBatch clause) over the history semantics. Tied to the crate by lag-focused exhaustive blocks around the rounded capacity and random low-poll-rate histories.",
                 level_note="Trusted: as C05. The broadcast channel model is the main modelling risk; it is exercised at capacities 1, 2, 3, 5, 16."),
     "C07": dict(streams=ovec_streams("c07", {"replica", "count", "stepwise", "plain", "app"}), trusted=OVEC_TRUST,
@@ -487,7 +493,7 @@ def c16_streams(tier, rng):
         gcases += gens.aobs_exhaustive(l, k)
     return [
         Stream("exhaustive", "obs", gens.obs_exhaustive(ml, heads=AHEADS, counts=False), obs_nontriv, True,
-               "the C01-C03 exhaustive histories (<= %d calls over the 21-call alphabet without the count functions) on Observable/SharedObservable/write guards created with the async lock, every future polled once by a hand-rolled executor (WOULDBLOCK if it does not complete)" % ml,
+               "the C01-C03 exhaustive histories (<= %d calls over the 24-call alphabet without the count functions) on Observable/SharedObservable/write guards created with the async lock, every future polled once by a hand-rolled executor (WOULDBLOCK if it does not complete)" % ml,
                obs_hist, oracles=orc),
         Stream("random", "obs", gens.obs_random(rng, n, heads=AHEADS, counts=False), obs_nontriv, False,
                "%d seeded random histories of 10..40 calls on the async flavour" % n, obs_hist, oracles=orc),
